@@ -226,6 +226,21 @@ claim("C11",
       "with its default NUTS sampler raises TypeError under numpy 2).",
       "TLA+ BO-loop model checked by TLC (safety+liveness) + TLC trace validation of scheduled BO fits and direct acquisition calls", "5/C11")
 
+claim("C09",
+      "TLC checks Metropolis.tla exhaustively (n<=4, warm-up<=3, adversarial target values Fin/-inf/+inf/NaN and generator outcomes: "
+      "ChainIsRandomWalk, AcceptIff, OutputIsChainTail, OutputsFinite, LengthExact) and NutsTree.tla (control skeleton of "
+      "nuts/_build_tree_nuts over all leaf-outcome assignments, U-turn answers and selection draws to depth 3: the selected state is the "
+      "previous sample or an in-slice leaf), with 5 refuted negative controls.  Real metropolis chains are recorded through a target "
+      "callable that logs every proposal; the harness replays RandomState(seed) (d normals then one uniform per iteration) and finds "
+      "bit-exactly which earlier state each proposal was built from; Metropolis_Trace.tla lets TLC infer accept/reject of every step and "
+      "checks proposal = current + sigma*z, state = previous or proposal, accept iff u below the ratio and the proposed log-target finite "
+      "(computed by TLC in integers on k*ln2 lattice targets), exact length and warm-up slice, determinism, finite outputs; Nuts_Trace.tla "
+      "checks length, determinism, finite outputs (P:) and binds real runs to NutsTree (M:).",
+      "Trusted: numpy RandomState replay order; harness float evaluation of exp(dt) < u off the lattice (cross-checked by integer arithmetic "
+      "on lattice targets); frame inspection for NUTS leaf outcomes (M: only).  Assumes n_samples >= 1 and a finite log-target at the start.  "
+      "The statistical clause (reproduces the target's moments) is not decidable by this technique and not claimed.",
+      "TLA+ design models checked by TLC + trace validation with TLC-inferred accept/reject", "5/C09")
+
 ALL = ["C%02d" % i for i in range(1, 21)]
 
 
